@@ -127,6 +127,35 @@ class Fetch:
         return False
 
 
+def fetch_is_unfiltered(ctx, rule, cls, fx=None):
+    """The incremental fetch asks for every trial above the watermark, whatever its state: the watermark is then advanced to the largest
+    *finished* id that came back, which is sound only if nothing between the old and the new watermark was filtered out. With a state
+    filter pushed into the fetch, a WAITING / RUNNING trial this client has never seen is skipped while a finished trial with a larger
+    id moves the watermark past it - the client never fetches it again (a queued trial is never offered to this worker)
+    (shared by C08 R08.1 and C04 R04.7)."""
+    fx = fx or Fetch(ctx, cls)
+    n = 0
+    for mname, f in sorted(cls.methods.items()):
+        for c, _inc, _gt in fx.fetch_calls(f):
+            d = dotted(c.func) or ""
+            if d == "self._backend._get_trials":
+                st = kwarg(c, "states", 1)
+            else:
+                req = c.args[0] if c.args else None
+                defs = single_defs(f.node)
+                if isinstance(req, ast.Name) and req.id in defs:
+                    req = defs[req.id]
+                st = kwarg(req, "states") if isinstance(req, ast.Call) else None
+            n += 1
+            ok = st is None or (isinstance(st, ast.Constant) and st.value is None) or (isinstance(st, (ast.List, ast.Tuple)) and not st.elts)
+            ctx.check(ok, rule, f.short, "fetch-not-filtered-by-state",
+                      message=f"{cls.name}.{mname} issues its incremental fetch with states=`{norm(st)[:40] if st is not None else None}`: trials of other states above the "
+                              f"watermark are left out of the answer while a finished trial with a larger id advances the watermark past them - this client never "
+                              f"fetches them again (a trial another worker enqueued is never listed as WAITING here, so this worker keeps sampling new trials)",
+                      how="states=None in the incremental fetch; the caller's filter is applied to the cached map", where=where(f, c))
+    return n
+
+
 def check_cache_class(ctx, cls, label, fetch_floor):
     p = ctx.program
     fx = Fetch(ctx, cls)
@@ -145,6 +174,7 @@ def check_cache_class(ctx, cls, label, fetch_floor):
                               f"greater_than={norm(gt) if gt is not None else None})",
                       how="both fields of one entry passed unchanged", where=where(f, c))
     ctx.floor("R08.1", f"fetch_sites[{label}]", n_fetch, fetch_floor)
+    fetch_is_unfiltered(ctx, "R08.1", cls, fx)
     # ---- R08.1c: the fetch, and every update of the entry that follows from it, run while the cache lock is held - in one section.
     # Two threads of one client otherwise merge their answers in an order unrelated to the order the backend produced them:
     # the older RUNNING answer lands after the newer COMPLETE one, untracked and below the watermark - stale for ever.
